@@ -1,5 +1,5 @@
 (* Judge of the L0 tie: the whole-formatter model Fmt0.format0 (extracted) against the binary, byte for byte.
-   L0 <id> <windows> <spaces> <indent width> <tree> <source hex> <status> <output hex> *)
+   L0 <id> <windows> <spaces> <indent width> <quote style> <tree> <source hex> <status> <output hex> *)
 open Util
 open Fmt0
 let uop = function "-" -> Expr.Neg | "not" -> Expr.Not | "#" -> Expr.Len | "~" -> Expr.BNot | s -> failwith ("uop " ^ s)
@@ -37,11 +37,12 @@ and els = function
 let records = ref 0 and bad = ref 0 and changed = ref 0 and samples = ref 0 and bytes = ref 0
 let report k id = incr bad; Printf.printf "BAD %s %s\n" k id
 let handle line = match words line with
-  | ["L0"; id; win; spaces; width; tree; src; status; out] ->
+  | ["L0"; id; win; spaces; width; style; tree; src; status; out] ->
     incr records;
     if status <> "ok" then report ("format-" ^ status) id
     else begin
-      let cfg = { windows0 = (win = "1"); spaces0 = (spaces = "1"); width0 = int_to_nat (int_of_string width) } in
+      let cfg = { windows0 = (win = "1"); spaces0 = (spaces = "1"); width0 = int_to_nat (int_of_string width);
+                  style0 = (match style with "AutoPreferDouble" -> QuoteMore.AutoDouble | "AutoPreferSingle" -> QuoteMore.AutoSingle | "ForceDouble" -> QuoteMore.ForceDouble | _ -> QuoteMore.ForceSingle) } in
       match (try Some (blk (Sexp.parse tree)) with Failure _ -> None) with
       | None -> report "unreadable-tree" id
       | Some p ->
